@@ -107,6 +107,9 @@ def check(run):
     nr = engines.dangling_element_refs(run, [f for f in fx.repo_functions() if f.file.startswith(simlib.REPO_PREFIX)], rule='R13f')
     if nr < 4:
         run.broke('only %d element references found (5 confirmed by hand)' % nr)
+    run.clause('no raw pointer to a destroyed timer stays in the simulation: a queued timer is dequeued by cancel() on every path (shared with C03/C12; a dangling queue entry makes the run depend on what the allocator put there)')
+    import p03
+    p03.cancel_dequeues_rule(run)
     r13b(run, OUTPUT_ONLY)
     r13c(run, OUTPUT_ONLY)
     r13d(run, simlib.REPO_PREFIX)
